@@ -2775,6 +2775,7 @@ func definingCall(info *types.Info, body *ast.BlockStmt, ifs *ast.IfStmt, obj ty
 }
 
 func c16Y12(l *core.Ledger, g *gen.Generator) {
+	y14Seen, y14Bad, y14Pos := false, "", token.NoPos
 	l.Rule("C16-Y12", "who may reject: every fatal diagnostic on the plugin path is the propagation of an error value (of validateOptions or a function outside the generator package), or is guarded by the reserved-identifier comparison or the one-service-per-file test - the conditions the documentation names; no other predicate over the input rejects it")
 	info := g.Pkg.TypesInfo
 	validators := delegatingValidators(g)
@@ -2923,7 +2924,33 @@ func c16Y12(l *core.Ledger, g *gen.Generator) {
 					break
 				}
 				if mentions(func(id *ast.Ident) bool { return id.Name == "Services" }) {
-					reason = "one service per file"
+					// exactly: len(<file>.Services) compared with a literal - every file with more than one
+					// service is rejected, whatever its methods are (the static code and the QuorumSpec
+					// interface are emitted once per service of the file)
+					exact := false
+					if be, isBin := ast.Unparen(cond).(*ast.BinaryExpr); isBin {
+						isLenServices := func(e ast.Expr) bool {
+							ce2, ok := ast.Unparen(e).(*ast.CallExpr)
+							if !ok || len(ce2.Args) != 1 {
+								return false
+							}
+							if id, ok := ce2.Fun.(*ast.Ident); !ok || id.Name != "len" {
+								return false
+							}
+							sel, ok := ast.Unparen(ce2.Args[0]).(*ast.SelectorExpr)
+							return ok && sel.Sel.Name == "Services"
+						}
+						isLit := func(e ast.Expr) bool { _, ok := ast.Unparen(e).(*ast.BasicLit); return ok }
+						exact = (isLenServices(be.X) && isLit(be.Y)) || (isLenServices(be.Y) && isLit(be.X))
+					}
+					if exact {
+						reason = "one service per file"
+						y14Seen = true
+					} else {
+						y14Bad = "the test for several services is " + types.ExprString(cond) + ", which does not count every service of the file"
+						y14Pos = ce.Pos()
+						reason = "one service per file (judged by C16-Y14)"
+					}
 					break
 				}
 				bad = "the condition " + types.ExprString(cond)
@@ -2941,6 +2968,17 @@ func c16Y12(l *core.Ledger, g *gen.Generator) {
 		})
 	}
 	l.Floor("C16-Y12", n, 3, "fatal diagnostics on the plugin path")
+	if l.Remap == nil {
+		l.Rule("C16-Y14", "a file with more than one service is rejected with a diagnostic, whatever the methods of the services are: the guard compares len(file.Services) itself with a literal (the qspec template declares QuorumSpec once per service, the static code once per file - a second service of plain rpc methods is enough for 'QuorumSpec redeclared')")
+		switch {
+		case y14Bad != "":
+			l.Bad("C16-Y14", "gengorums.gorumsGuard/several-services", y14Pos, y14Bad+": a file with a second service that this count leaves out is accepted with status 0, and the emitted file declares QuorumSpec once per service - it does not compile")
+		case !y14Seen:
+			l.Bad("C16-Y14", "gengorums.gorumsGuard/several-services", token.NoPos, "no fatal diagnostic is guarded by a test of len(file.Services): a file with several services is accepted with status 0 and the emitted file declares QuorumSpec once per service - it does not compile")
+		default:
+			l.OK("C16-Y14", "gengorums.gorumsGuard/several-services", token.NoPos, "len(file.Services) is compared with a literal")
+		}
+	}
 }
 
 // errorSource: the function whose result is assigned to errObj in the init of ifs
